@@ -789,6 +789,8 @@ def main():
             d = (c[0], rng.randint(0, m))             # vertical
         fli_case((a, b), (c, d))
 
+    import time
+    t_fam = {'start': time.time()}
     # ---------------------------------------------------------------- translations nothing else in the run uses
     # 11 x 11 degree cells (the [-1, 9]^2 window of the grid corpus fits in one), away from the origin window, the random
     # star area [0, 62.5]^2 and the -180 rings; handed out without replacement
@@ -868,10 +870,12 @@ def main():
     AXIS = ['square', 'square+collinear', 'L', 'U', 'stairs', 'arrow', 'notch']       # fixed rings with exactly vertical / horizontal edges
     fixed = dict(FIXED_RINGS)
     dense_pool = [(nm, fixed[nm]) for nm in AXIS] + [(f'raster{k}', raster(rng, k % 2 == 1)) for k in range(12 if thorough else 4)]
-    dense_sel = dense_pool + (rings if thorough else rng.sample([r for r in rings if r[0] not in AXIS], 3))
+    dense_sel = dense_pool + rng.sample([r for r in rings if r[0] not in AXIS], 12 if thorough else 3)
     for k, (name, ring) in enumerate(dense_sel):
         for _ in range(2 if thorough and k < len(dense_pool) else 1):
             dense_case(name, ring, [], dense_target(rng), rng.randrange(4 * len(ring)), rng.random() < 0.5, rng.random() < 0.5)
+    for name, ring in rng.sample(dense_pool, 6 if thorough else 3):            # and some well above 128 / 256
+        dense_case(name, ring, [], rng.randint(200, 300), rng.randrange(4 * len(ring)), rng.random() < 0.5, rng.random() < 0.5)
     # dense holes in sparse and dense hosts: a query strictly inside a dense hole, on the prolongation of one of its edges, is excluded
     HOLE_U = ('poly', [(1, 1), (7, 1), (7, 3), (3, 3), (3, 5), (7, 5), (7, 7), (1, 7)], False)
     HOLE_STAIRS = ('poly', [(1, 1), (7, 1), (7, 3), (5, 3), (5, 5), (3, 5), (3, 7), (1, 7)], True)
@@ -903,6 +907,7 @@ def main():
                                      {'query': [str(q[0]), str(q[1])], 'contains_coordinate': b, 'exact_reference': want}))
         ck.count('dense:box+holes')
 
+    t_fam['dense'] = time.time()
     # ---------------------------------------------------------------- process history (see HISTORY_KINDS)
     # every kind of look-alike comes first in at least one case of the run (the first question about a segment is the one a
     # memo keeps); shapes: the grid corpus (rings, rings with holes, boxes with holes, a few dense rings), each in its own cell
@@ -964,6 +969,9 @@ def main():
             grid_case(name, ring, rng.randrange(len(ring)), rng.random() < 0.5, rng.random() < 0.7, hs, GX=gx, gpts=grid_points(*gx),
                       history=hist)
 
+    t_fam['history'] = time.time()
+    ck.cov['seconds_new_families'] = {'dense': round(t_fam['dense'] - t_fam['start'], 1), 'history': round(t_fam['history'] - t_fam['dense'], 1),
+                                      'all_generation': round(t_fam['history'] - ck.t0, 1)}
     ck.cov['evaluations'] = n_eval
     ck.cov['distinct_nontrivial'] = len(nontrivial)
     for i in (1, len(cases) // 2, len(cases) - 1):
